@@ -267,17 +267,20 @@ def render_struct(s):
             pre.append("pub const %s: %s = 0x%x;" % (cname, cty, d["value"]))
             val = cname
         else:
-            val = "0x%x" % d["value"] if d.get("hex", True) else "%d" % d["value"]
+            val = d.get("lit") or ("0x%x" % d["value"] if d.get("hex", True) else "%d" % d["value"])
         sep = "=" if form.endswith("=") else ":"
         args.append("default %s %s" % (sep, val) if sep == "=" else "default: %s" % val)
     if s["debug"]:
-        args.append("debug")
+        if s.get("debug_first"):
+            args.insert(1, "debug")
+        else:
+            args.append("debug")
     lines = list(pre)
     lines.append("/// witness %s (%s)" % (s["name"], s["family"]))
     lines.append("#[bitfield(%s)]" % ", ".join(args))
     for a in s.get("attrs", []):
         lines.append(a)
-    lines.append("pub struct %s {" % s["name"])
+    lines.append("%sstruct %s {" % (s.get("vis", "pub "), s["name"]))
     for f in s["fields"]:
         lines.extend(field_decl(f, s["name"]))
     lines.append("}")
@@ -287,9 +290,10 @@ def render_struct(s):
 def render_enum(e):
     args = ["u%d" % e["bits"]]
     if e["exh"] is not None:
-        args.append("exhaustive = %s" % e["exh"])
+        args.append(("exhaustive: %s" if e.get("legacy_colon") else "exhaustive = %s") % e["exh"])
     lines = ["/// witness enum %s" % e["name"], "#[bitenum(%s)]" % ", ".join(args)]
-    lines.append("#[derive(Debug, PartialEq, Eq)]")
+    if not e.get("no_derives"):
+        lines.append("#[derive(Debug, PartialEq, Eq)]")
     if e["repr"]:
         lines.append("#[repr(%s)]" % e["repr"])
     lines.append("pub enum %s {" % e["name"])
@@ -1233,6 +1237,82 @@ def fam_dbg(tier, seed):
     return out
 
 
+def fam_misc(tier, seed):
+    """declaration shapes around the fields: visibility, pass-through attributes, argument order, literal
+    spellings, unusual field names, declaration order different from bit order, zero fields"""
+    out = []
+    mod = "misc"
+    base_fields = lambda: [field("lo", [(0, 3)], T_uint(4)), field("hi", [(4, 7)], T_uint(4))]
+    for i, (vis, attrs) in enumerate([("pub(crate) ", []), ("", []), ("pub(super) ", []), ("pub ", ["#[derive(PartialEq, Eq)]"]),
+                                       ("pub ", ["#[derive(Debug)]"]), ("pub ", ["#[derive(PartialEq, Eq, PartialOrd, Ord, Hash, Debug)]"]),
+                                       ("pub ", ["#[allow(dead_code)]", "#[must_use]"])]):
+        for dflt in (None, {"form": "=", "value": 0x5A}):
+            s = struct(mod, "Vis%d%s" % (i, "d" if dflt else "n"), 8, base_fields(), default=dflt, family="MISC", extra={"vis": vis, "attrs": attrs})
+            add_const_witnesses(s, seed, maxn=1)
+            out.append(s)
+    # argument order and literal spellings of the bitfield attribute
+    out.append(struct(mod, "DbgFirst", 16, [field("a", [(0, 7)], T_uint(8)), field("b", [(8, 15)], T_int(8))], default={"form": "=", "value": 0x1234}, debug=True,
+                      family="MISC", extra={"debug_first": True}))
+    for i, (lit, val, base) in enumerate([("0b1010_0101", 0xA5, 8), ("0o17", 15, 8), ("1_000", 1000, 16), ("0xFFFF_FFFF", 0xFFFFFFFF, 32), ("0xffff_ffff_ffff_ffff", (1 << 64) - 1, 64),
+                                          ("340282366920938463463374607431768211455", (1 << 128) - 1, 128), ("18446744073709551616", 1 << 64, 128), ("0x7f", 0x7f, 7),
+                                          ("0x1_0000_0000_0000_0000", 1 << 64, 65), ("16777215", (1 << 24) - 1, 24), ("0b1", 1, 1), ("5u32", 5, 32), ("5_u8", 5, 8)]):
+        for form in ("=", ":"):
+            out.append(struct(mod, "Lit%d%s" % (i, "e" if form == "=" else "c"), base, [field("b0", [(0, 0)], T_bool())],
+                              default={"form": form, "value": val, "lit": lit}, family="MISC"))
+    # field names: raw identifiers, leading underscores, names that collide with generated prefixes
+    names = ["r#type", "r#fn", "_x", "__y", "set_z", "with_q", "raw", "value", "index", "field_value", "builder_", "zero", "default_", "r#mod"]
+    fs = [field(nm, [(4 * i, 4 * i + 2)], T_uint(3), access=["rw", "r", "w", "rw"][i % 4]) for i, nm in enumerate(names)]
+    for dflt in (None, {"form": "=", "value": 0x0123456789ABCDEF}):
+        s = struct(mod, "Names%s" % ("d" if dflt else "n"), 64, fs, default=dflt, family="MISC")
+        add_const_witnesses(s, seed, maxn=3)
+        out.append(s)
+    fs = [field(nm, [(8 * i, 8 * i)], T_bool(), access="rw", array={"k": 3, "stride": 2}) for i, nm in enumerate(["r#loop", "_arr", "with_arr", "set_arr"])]
+    out.append(struct(mod, "NamesArr", 32, fs, default={"form": "=", "value": 0}, family="MISC"))
+    # declaration order different from bit order; fields of mixed kinds; complete cover -> builder
+    for base in (8, 16, 24, 32, 64, 100, 128):
+        q = base // 4
+        fs = [field("top", [(3 * q, base - 1)], T_uint(base - 3 * q)), field("bot", [(0, q - 1)], T_uint(q)),
+              field("upper", [(2 * q, 3 * q - 1)], T_uint(q)), field("lower", [(q, 2 * q - 1)], T_uint(q))]
+        s = struct(mod, "Order%d" % base, base, fs, family="MISC")
+        add_const_witnesses(s, seed, maxn=1)
+        out.append(s)
+        fs2 = list(reversed(fs))
+        s = struct(mod, "OrderR%d" % base, base, [dict(f) for f in fs2], default={"form": "=", "value": h("ord", base) & ((1 << base) - 1)}, family="MISC")
+        add_const_witnesses(s, seed, maxn=1)
+        out.append(s)
+    # zero fields
+    out.append(struct(mod, "Empty8n", 8, [], family="MISC"))
+    out.append(struct(mod, "Empty8d", 8, [], default={"form": "=", "value": 7}, family="MISC"))
+    out.append(struct(mod, "Empty24d", 24, [], default={"form": "=", "value": 0xABCDEF}, family="MISC"))
+    out.append(struct(mod, "Empty128d", 128, [], default={"form": "=", "value": 1 << 100}, debug=True, family="MISC"))
+    # enums: legacy `exhaustive: x`, no derives, explicit repr, 1-variant enums
+    e = mk_enum(mod, "LegacyT", 2, [3, 2, 1, 0], family="MISC")
+    e["legacy_colon"] = True
+    out.append(e)
+    e = mk_enum(mod, "LegacyF", 3, [5, 1], family="MISC")
+    e["legacy_colon"] = True
+    out.append(e)
+    e = mk_enum(mod, "LegacyC", 2, [0, 2], exh="conditional", family="MISC")
+    e["legacy_colon"] = True
+    out.append(e)
+    e = mk_enum(mod, "NoDerive", 2, [0, 1, 2, 3], family="MISC")
+    e["no_derives"] = True
+    out.append(e)
+    e = mk_enum(mod, "NoDeriveO", 5, [7, 31], family="MISC")
+    e["no_derives"] = True
+    out.append(e)
+    for bits, rp in ((8, "u8"), (3, "u8"), (16, "u16"), (12, "u16"), (32, "u32"), (20, "u32"), (64, "u64"), (40, "u64")):
+        e = mk_enum(mod, "Repr%d" % bits, bits, [0, (1 << bits) - 1, 1 << (bits - 1)], family="MISC")
+        e["repr"] = rp
+        out.append(e)
+    # fields typed by those enums (no derives needed by generated code)
+    out.append(struct(mod, "UsesNoDerive", 8, [field("a", [(0, 1)], T_enum("NoDerive", 2, True)), field("b", [(2, 6)], T_enum("NoDeriveO", 5, False))], family="MISC"))
+    for d in out:
+        if d["kind"] == "enum":
+            add_enum_consts(d)
+    return out
+
+
 # ------------------------------------------------------------------ API twins (compile-pass side of E0599 witnesses)
 
 
@@ -1297,6 +1377,10 @@ def build_positive(tier, seed, harvested):
         crates.append(c)
     c = Crate("pos_misc_0")
     for d in fam_acc(tier, seed) + fam_dbg(tier, seed):
+        c.add(d)
+    crates.append(c)
+    c = Crate("pos_misc_1")
+    for d in fam_misc(tier, seed):
         c.add(d)
     crates.append(c)
     return crates
